@@ -2,7 +2,10 @@ module verifharness
 
 go 1.19
 
-require github.com/innovationb1ue/RedisGO v0.0.0
+require (
+	github.com/anishathalye/porcupine v1.3.0
+	github.com/innovationb1ue/RedisGO v0.0.0
+)
 
 require (
 	github.com/beorn7/perks v1.0.1 // indirect
